@@ -106,6 +106,16 @@ Definition color_hex_ok (e : bytes * bytes) : bool :=
 Definition color_name_ok (e : bytes * bytes) : bool :=
   rgb_eqb (lookup (fst e) ref_colors) (hex_rgb (snd e)) && Nat.leb (length (snd e)) (length (fst e)).
 
+(* ---------- units after which a zero may lose its unit ---------- *)
+(* CSS Values and Units 4, section 6 (absolute and relative lengths): a unitless 0 is a <length>; it is NOT an <angle>,
+   <time>, <frequency> or <resolution> (finding K88: rotate:0deg became rotate:0) *)
+Definition ref_css_length_units : list bytes :=
+  [[112;120]; [99;109]; [109;109]; [113]; [105;110]; [112;116]; [112;99];
+   [101;109]; [101;120]; [99;104]; [114;101;109]; [118;119]; [118;104]; [118;109;105;110]; [118;109;97;120];
+   [99;97;112]; [105;99]; [108;104]; [114;108;104]; [118;105]; [118;98]].
+Definition css_zero_dims_are_lengths (l : list (bytes * bytes)) : bool :=
+  forallb (fun e => existsb (beqb (fst e)) ref_css_length_units) l.
+
 (* ---------- traits ---------- *)
 Definition has_trait (t : Z) (v : Z) : bool := negb (Z.land v t =? 0).
 Definition names_with (t : Z) (l : list (bytes * Z)) : list bytes :=
